@@ -71,8 +71,24 @@ func gen(t *rapid.T) Case {
 	c.Kind = rapid.SampledFrom(kinds).Draw(t, "kind")
 	switch c.Kind {
 	case "diff":
-		pairing := rapid.SampledFrom([]string{"nodatum", "datum", "datum", "datum", "mirror"}).Draw(t, "pairing")
-		if pairing == "mirror" {
+		pairing := rapid.SampledFrom([]string{"nodatum", "datum", "datum", "datum", "mirror", "nearellps"}).Draw(t, "pairing")
+		if pairing == "nearellps" {
+			// the WGS84 ellipsoid written with a rounded flattening (as definitions copied by hand have it) on a datum
+			// without shift, against WGS84 itself: the two ellipsoids differ by a few 1e-11 to a few 1e-10 in e^2 - around
+			// the threshold below which two datums count as the same - and the positions by up to a millimetre and a half
+			c.Dst = projkit.GenDef(t, projkit.Opts{NoDatum: true, Projs: []string{"longlat", "merc", "lcc", "aea", "eqdc", "tmerc", "utm"}})
+			d := rapid.Float64Range(2.5e-6, 2e-5).Draw(t, "drf")
+			if rapid.Bool().Draw(t, "drfneg") {
+				d = -d
+			}
+			c.Dst.EllpsKind, c.Dst.Ellps, c.Dst.A, c.Dst.Rf = "arf", "", 6378137, 298.257223563+d
+			c.Dst.DatumKind, c.Dst.Datum, c.Dst.Towgs = "towgs", "", []float64{0, 0, 0}
+			c.Lon, c.Lat = projkit.GenPosition(t, c.Dst)
+			c.Src = wgs84Geo
+			if rapid.Bool().Draw(t, "nearinverse") {
+				c.Src, c.Dst = c.Dst, c.Src
+			}
+		} else if pairing == "mirror" {
 			// two definitions that differ in the SIGN of one parameter only (false easting, false northing, or - where the
 			// usable region is wide enough to hold the position for both - the central meridian): as different as any two
 			// references, but equal in every magnitude
